@@ -8,25 +8,25 @@ From Coq Require Import List Arith NArith ZArith Bool String.
 Import ListNotations.
 Require Import PV.Comb.PState PV.Peg.Ast PV.Opt.MapExpr.
 
-Definition cache := list (name * option bool).
-Fixpoint cache_get (c : cache) (n : name) : option (option bool) :=
+Definition ccache := list (name * option bool).
+Fixpoint cache_get (c : ccache) (n : name) : option (option bool) :=
   match c with [] => None | (k, v) :: r => if str_eqb k n then Some v else cache_get r n end.
-Definition cache_set (c : cache) (n : name) (v : option bool) : cache := (n, v) :: c.   (* insert: newest binding wins *)
+Definition cache_set (c : ccache) (n : name) (v : option bool) : ccache := (n, v) :: c.   (* insert: newest binding wins *)
 
 Section Cms.
 Variable fixpop fixmap : bool.
 Variable rules : ogrammar.
 
 (* fuel: every recursive call is made for a name that is not in the cache yet and is a key of `rules` *)
-Fixpoint cms (fuel : nat) (e : oexpr) (c : cache) : option (bool * cache) :=
+Fixpoint cms (fuel : nat) (e : oexpr) (c : ccache) : option (bool * ccache) :=
   match fuel with
   | O => None
   | S n =>
-    (fix any (l : list oexpr) (c : cache) {struct l} : option (bool * cache) :=
+    (fix any (l : list oexpr) (c : ccache) {struct l} : option (bool * ccache) :=
        match l with
        | [] => Some (false, c)
        | x :: rest =>
-         let visit : option (bool * cache) :=
+         let visit : option (bool * ccache) :=
            match x with
            | OPush _ => Some (true, c)
            | OIdent name =>
